@@ -99,6 +99,10 @@ class ScriptError(Exception):
     """Raised by a scripted handler's `raise` op."""
 
 
+class ScriptBaseError(BaseException):
+    """Raised by the `raiseb` op: an error that is not an Exception (like GeneratorExit or CancelledError)."""
+
+
 def line(k, **kw):
     ln = {'k': k, 'e': 0, 'h': 0, 'c': 0, 'n': '', 'ch': '', 'p': 0, 'o': 0, 'x': 0, 'y': 0, 'v': 0, 'f': 0, 'd': 0}
     ln.update(kw)
@@ -127,7 +131,8 @@ class Universe:
         self.last_fired = {}          # (eid, hid) -> last event fired by that handler segment
         self.escaped = None
         self.internal_errors = []
-        self.call_origin = {}         # id(event made for call()) -> (caller event id, caller handler id)
+        self.call_origin = {}
+        self.current_event = None         # id(event made for call()) -> (caller event id, caller handler id)
         self._build()
 
     # ------------------------------------------------------------------ build
@@ -144,7 +149,15 @@ class Universe:
         uni = self
         is_gen = any(op[0] in ('yield', 'call', 'wait') for sc in hd.get('script', {}).values() for op in sc)
 
-        if is_gen:
+        if hd.get('noevent'):
+            # a handler that does not take the event: it reaches it through what the dispatcher is handling
+            if is_gen:
+                def f(self, *args, **kwargs):
+                    return uni._run_handler(hid, self, uni.current_event, True)
+            else:
+                def f(self, *args, **kwargs):
+                    return uni._run_handler(hid, self, uni.current_event, False)
+        elif is_gen:
             def f(self, event, *args, **kwargs):
                 return uni._run_handler(hid, self, event, True)
         else:
@@ -305,7 +318,7 @@ class Universe:
                     # d = 1: the exception is not a scripted `raise` of the program but an error
                     # inside circuits itself (or the harness)
                     etype = event.args[0] if event.args else None
-                    if etype is not ScriptError:
+                    if etype is not ScriptError and etype is not ScriptBaseError:
                         d = 1
                         self.internal_errors.append(repr(event.args[1]) if len(event.args) > 1 else repr(etype))
                 elif name in ('registered', 'unregistered', 'prepare_unregister'):
@@ -326,6 +339,7 @@ class Universe:
                                  p=self.prio_rank.get(extra, 99), c=self._cid(manager), o=o, h=h, f=flags,
                                  x=ref, y=kind, v=v, d=d + (100 if len(channels) > 1 else 0)))
         elif what == 'dispatch':
+            self.current_event = event
             e = self._eid(event)
             self.log.append(line('disp', e=e, c=self._cid(manager), f=1 if event.cancelled else 0, n=event.name))
         elif what == 'dispatched':
@@ -350,7 +364,7 @@ class Universe:
         try:
             try:
                 v = self._exec(hid, comp, event, e, script)
-            except (ScriptError, SystemExit, KeyboardInterrupt) as exc:
+            except (ScriptError, ScriptBaseError, SystemExit, KeyboardInterrupt) as exc:
                 self.log.append(line('ret', e=e, h=hid, f=1, v=-1,
                                      x=1 if isinstance(exc, SystemExit) else 2 if isinstance(exc, KeyboardInterrupt) else 0))
                 raise
@@ -424,6 +438,9 @@ class Universe:
             elif o == 'raise':
                 self.log.append(line('op', e=e, h=hid, n='raise'))
                 raise ScriptError('scripted failure h%d e%d' % (hid, e))
+            elif o == 'raiseb':
+                self.log.append(line('op', e=e, h=hid, n='raise'))
+                raise ScriptBaseError('scripted non-Exception failure h%d e%d' % (hid, e))
             elif o == 'exit':
                 self.log.append(line('op', e=e, h=hid, n='exit', x=code_id(op[1])))
                 raise SystemExit(op[1])
@@ -485,7 +502,7 @@ class Universe:
                 seg.append(op)
             try:
                 ret = run_segment(seg)
-            except ScriptError:
+            except (ScriptError, ScriptBaseError):
                 self.log.append(line('gend', e=e, h=hid, f=1))
                 raise
             except (SystemExit, KeyboardInterrupt):
@@ -702,7 +719,7 @@ class Universe:
             self.log.append(line('api', n='tick', c=r))
             try:
                 self.comps[r].tick()
-            except Exception as exc:
+            except (Exception, ScriptBaseError) as exc:
                 self.escaped = repr(exc)
                 self.log.append(line('escape', n=type(exc).__name__, x=1))
                 break
@@ -781,9 +798,15 @@ class Universe:
                         self.api_cancel(op[1])
                     elif o == 'proj':
                         self.project_structure()
+                    elif o == 'age':
+                        # fast-forward: this manager has already numbered op[2] events (its queue's sequence
+                        # counter is what orders equal priorities); skipped if the code has no such counter
+                        q = getattr(self.comps[op[1]], '_queue', None)
+                        if q is not None and hasattr(q, '_counter') and isinstance(q._counter, int):
+                            q._counter = op[2]
                     else:
                         raise ValueError('bad history op %r' % (op,))
-                except (ScriptError, SystemExit, KeyboardInterrupt) as exc:
+                except (ScriptError, ScriptBaseError, SystemExit, KeyboardInterrupt) as exc:
                     self.escaped = repr(exc)
                     self.log.append(line('escape', n=type(exc).__name__))
                 except Exception as exc:
